@@ -23,7 +23,7 @@ import (
 
 func init() {
 	register(&Prop{ID: "C14", Run: runC14, MinNontrivial: 500,
-		Rule:        "cases = (flow: BuildAuthURL, BuildAuthURLFromDocument, BuildAuthURLRedirect signed/unsigned, BuildLogoutURLRedirect, AuthRedirect) x relay states (empty, spaces, + & = % # ? /, CR/LF, non-ASCII, astral, 4 KiB) x IdP URLs (plain, existing query parameters incl. escaped values, trailing ?, fragment, port, escaped path, paths with escaped slashes / reserved characters / lower-case escapes, repeated parameters) x request documents from the builders with random configuration plus caller-made documents x key configurations and compatible signature algorithms; oracle splits the RAW query on & and = (no decoding) to obtain the exact octets, checks endpoint + pre-existing parameters, SAMLRequest -> unescape -> base64 -> raw inflate == doc.WriteToString(), RelayState presence/value, and verifies Signature with the expected public key and the hash named by SigAlg over SAMLRequest=..[&RelayState=..]&SigAlg=.. built from those octets; non-trivial = a URL was produced and parsed; distinct by parameter tuple; class reconfigured-in-flight: the signing key is replaced from inside a URL build (signer callback on the calling goroutine), the URL must be consistent with one configuration; IdP parameter names that contain / end in / case-vary the binding parameter names; relay states swept over every string literal of the library source; AuthRedirect given requests with binding-named parameters in query, form body, referer and cookies",
+		Rule:        "cases = (flow: BuildAuthURL, BuildAuthURLFromDocument, BuildAuthURLRedirect signed/unsigned, BuildLogoutURLRedirect, AuthRedirect) x relay states (empty, spaces, + & = % # ? /, CR/LF, non-ASCII, astral, 4 KiB) x IdP URLs (plain, existing query parameters incl. escaped values, trailing ?, fragment, port, escaped path, paths with escaped slashes / reserved characters / lower-case escapes, repeated parameters) x request documents from the builders with random configuration plus caller-made documents x key configurations and compatible signature algorithms; oracle splits the RAW query on & and = (no decoding) to obtain the exact octets, checks endpoint + pre-existing parameters, SAMLRequest -> unescape -> base64 -> raw inflate == doc.WriteToString(), RelayState presence/value, and verifies Signature with the expected public key and the hash named by SigAlg over SAMLRequest=..[&RelayState=..]&SigAlg=.. built from those octets; non-trivial = a URL was produced and parsed; distinct by parameter tuple; class reconfigured-in-flight: the signing key is replaced from inside a URL build (signer callback on the calling goroutine), the URL must be consistent with one configuration; IdP parameter names that contain / end in / case-vary the binding parameter names; relay states swept over every string literal of the library source; AuthRedirect given requests with binding-named parameters in query, form body, referer and cookies; the signature algorithm changed (field or signing context) after the provider first signed",
 		Assumptions: []string{"IdP URLs do not themselves contain SAMLRequest/RelayState/SigAlg/Signature parameters", "signature algorithms compatible with the key type"}})
 }
 
@@ -370,7 +370,30 @@ func runC14(c *mon.Ctx) {
 		if k >= n0 {
 			relay = dict[k-n0]
 		}
-		cs.Desc("flow=%s idp=%s relay=%q keys=%s alg=%q sign=%v", flow, idp.name, trunc(relay, 60), kc, alg.URI, sp.SignAuthnRequests)
+		retuned := ""
+		if (flow == "BuildAuthURLRedirect" || flow == "BuildLogoutURLRedirect") && r.IntN(4) == 0 {
+			// the application signs once (or merely looks at the signing context) and changes its mind about the algorithm
+			// afterwards, through the field or through the context: whichever of the two the library then goes by, SigAlg
+			// names the algorithm the Signature was made with
+			mon.Guard(func() {
+				if r.IntN(2) == 0 {
+					sp.SigningContext()
+				} else if d, e := sp.BuildLogoutRequestDocumentNoSig("warm", "_up"); e == nil {
+					sp.BuildLogoutURLRedirect("", d)
+				}
+				alg2 := algs[r.IntN(len(algs))]
+				if ctx := sp.SigningContext(); ctx != nil && r.IntN(2) == 0 {
+					ctx.SetSignatureMethod(alg2.URI)
+					retuned = "context:" + alg2.URI
+				} else {
+					sp.SignAuthnRequestsAlgorithm = alg2.URI
+					retuned = "field:" + alg2.URI
+				}
+			})
+			alg.Hash = 0
+			c.Count("algorithm-changed-after-first-use", 1)
+		}
+		cs.Desc("flow=%s idp=%s relay=%q keys=%s alg=%q sign=%v retuned=%q", flow, idp.name, trunc(relay, 60), kc, alg.URI, sp.SignAuthnRequests, retuned)
 		var out, wantDoc, idpURL string
 		signing := false
 		var err error
